@@ -67,13 +67,17 @@ type c07Op struct {
 	Kind string `json:"kind"`
 	C    int    `json:"c"`
 	Meta int    `json:"meta,omitempty"`
-	Bad  string `json:"bad,omitempty"` // malformed input variant
+	SeedV int   `json:"seedv,omitempty"` // 0 = the contact's first seed, n = its n-th reset seed
+	Bad  string `json:"bad,omitempty"`   // malformed input variant
 }
 
 func (o c07Op) String() string {
 	s := fmt.Sprintf("%s(c%d", o.Kind, o.C)
 	if o.Meta > 0 {
 		s += fmt.Sprintf(",meta%d", o.Meta)
+	}
+	if o.SeedV > 0 {
+		s += fmt.Sprintf(",seed%d", o.SeedV)
 	}
 	if o.Bad != "" {
 		s += ",bad=" + o.Bad
@@ -120,7 +124,12 @@ func (x *c07World) apply(op c07Op) (string, string) {
 	if op.Meta > 0 {
 		meta = []byte(fmt.Sprintf("meta-%d", op.Meta))
 	}
-	sc := &protocoltypes.ShareableContact{Pk: c.raw, PublicRendezvousSeed: c.seed, Metadata: meta}
+	seed := c.seed
+	if op.SeedV > 0 { // the peer reset its rendezvous reference
+		seed = append([]byte(nil), c.seed...)
+		seed[0] ^= byte(op.SeedV)
+	}
+	sc := &protocoltypes.ShareableContact{Pk: c.raw, PublicRendezvousSeed: seed, Metadata: meta}
 	pk := c.pk
 	wellFormed := true
 	seedAbsent := false
@@ -130,10 +139,10 @@ func (x *c07World) apply(op c07Op) (string, string) {
 		seedAbsent = true
 		wellFormed = op.Kind == "incoming" // incoming may omit the seed
 	case "seed-31":
-		sc.PublicRendezvousSeed = c.seed[:31]
+		sc.PublicRendezvousSeed = seed[:31]
 		wellFormed = false
 	case "seed-33":
-		sc.PublicRendezvousSeed = append(append([]byte(nil), c.seed...), 1)
+		sc.PublicRendezvousSeed = append(append([]byte(nil), seed...), 1)
 		wellFormed = false
 	case "pk-empty":
 		sc.Pk = nil
@@ -205,10 +214,10 @@ func (x *c07World) apply(op c07Op) (string, string) {
 	c.state = c07State(next)
 	c.everTouched = true
 	if appendedEnqueue {
-		c.carried = append(c.carried, [2][]byte{c.seed, meta})
+		c.carried = append(c.carried, [2][]byte{seed, meta})
 	}
 	if appendedIncoming {
-		s := c.seed
+		s := seed
 		if seedAbsent {
 			s = nil
 		}
@@ -351,6 +360,34 @@ func TestVerif_C07_Exhaustive(t *testing.T) {
 			}
 		}
 	}
+	// what the requests carry matters when a contact has several enqueue / incoming events: those sequences are
+	// run again with (b) a reset seed and no metadata on every second request, (c) the seed omitted on later incoming requests
+	base := len(seqs)
+	for i := 0; i < base; i++ {
+		carrying := 0
+		for _, op := range seqs[i] {
+			if op.Kind == "enqueue" || op.Kind == "incoming" {
+				carrying++
+			}
+		}
+		if carrying < 2 {
+			continue
+		}
+		vb, vc := append([]c07Op(nil), seqs[i]...), append([]c07Op(nil), seqs[i]...)
+		k := 0
+		for j := range vb {
+			if vb[j].Kind == "enqueue" || vb[j].Kind == "incoming" {
+				if k%2 == 1 {
+					vb[j].Meta, vb[j].SeedV = 0, k
+				}
+				if k >= 1 && vc[j].Kind == "incoming" {
+					vc[j].Bad = "seed-missing"
+				}
+				k++
+			}
+		}
+		seqs = append(seqs, vb, vc)
+	}
 	shard, nshards := vacct.Shard()
 	var x *c07World
 	inWorld := 0
@@ -391,7 +428,9 @@ func TestVerif_C07_Exhaustive(t *testing.T) {
 			if len(x.contacts[op.C].carried) > 0 && (op.Kind == "enqueue" || op.Kind == "incoming") {
 				backfill = true
 			}
-			names = append(names, fmt.Sprintf("%s(c%d)", op.Kind, op.C-base))
+			nm := op
+			nm.C -= base
+			names = append(names, nm.String())
 			if id, msg := x.apply(op); id != "" {
 				c07Fail(acct, "TestVerif_C07_Exhaustive", x, id, msg)
 				t.Errorf("C07 %s: %s\n%s", id, msg, strings.Join(x.trace[max(0, len(x.trace)-12):], "\n"))
@@ -437,9 +476,9 @@ func TestVerif_C07_Random(t *testing.T) {
 		n := rapid.IntRange(3, 40).Draw(rt, "n")
 		var names []string
 		for i := 0; i < n; i++ {
-			op := c07Op{Kind: rapid.SampledFrom(c07Ops).Draw(rt, "kind"), C: rapid.IntRange(0, 1).Draw(rt, "c"), Meta: rapid.IntRange(0, 2).Draw(rt, "meta")}
-			if rapid.IntRange(0, 5).Draw(rt, "bad?") == 0 {
-				op.Bad = rapid.SampledFrom([]string{"seed-missing", "seed-31", "seed-33", "pk-empty", "pk-31", "own-pk"}).Draw(rt, "bad")
+			op := c07Op{Kind: rapid.SampledFrom(c07Ops).Draw(rt, "kind"), C: rapid.IntRange(0, 1).Draw(rt, "c"), Meta: rapid.IntRange(0, 2).Draw(rt, "meta"), SeedV: rapid.IntRange(0, 2).Draw(rt, "seedv")}
+			if rapid.IntRange(0, 4).Draw(rt, "bad?") == 0 {
+				op.Bad = rapid.SampledFrom([]string{"seed-missing", "seed-missing", "seed-missing", "seed-31", "seed-33", "pk-empty", "pk-31", "own-pk"}).Draw(rt, "bad")
 				malformed = true
 			}
 			st := x.contacts[op.C].state
